@@ -403,9 +403,10 @@ type decOut struct {
 	Outcome string // value | error | panic | timeout
 	Detail  string
 	Bin     string
+	Fix     string // fixed point of the accepted value: ok | differs | err:... | panic:...
 }
 
-func decodeShape(enc string, doc []byte, ptr any) decOut {
+func decodeShape(enc string, doc []byte, ptr any, fresh ...func() any) decOut {
 	ch := make(chan decOut, 1)
 	go func() {
 		var o decOut
@@ -433,7 +434,35 @@ func decodeShape(enc string, doc []byte, ptr any) decOut {
 					o.Bin = "reencode-panic:" + vh.PanicSig(r)
 				}
 			}()
-			o.Bin = fmt.Sprintf("%x", ttlv.MarshalTTLV(ptr))
+			b1 := ttlv.MarshalTTLV(ptr)
+			o.Bin = fmt.Sprintf("%x", b1)
+			if len(fresh) > 0 {
+				// C18: the accepted value re-encodes, decodes again and re-encodes to the same bytes, in binary and in its own encoding
+				p2 := fresh[0]()
+				if err := ttlv.UnmarshalTTLV(b1, p2); err != nil {
+					o.Fix = "err:binary re-encoding not accepted: " + err.Error()
+					return
+				}
+				if b2 := ttlv.MarshalTTLV(p2); string(b2) != string(b1) {
+					o.Fix = "differs:binary"
+					return
+				}
+				m, u := ttlv.MarshalXML, ttlv.UnmarshalXML
+				if enc == "json" {
+					m, u = ttlv.MarshalJSON, ttlv.UnmarshalJSON
+				}
+				t1 := m(ptr)
+				p3 := fresh[0]()
+				if err := u(t1, p3); err != nil {
+					o.Fix = "err:" + enc + " re-encoding not accepted: " + err.Error()
+					return
+				}
+				if t2 := m(p3); string(t2) != string(t1) {
+					o.Fix = "differs:" + enc
+					return
+				}
+				o.Fix = "ok"
+			}
 		}()
 	}()
 	select {
@@ -476,7 +505,7 @@ func TestShapes(t *testing.T) {
 		}
 		orig := []byte(s.Doc)
 		in := append([]byte(nil), orig...)
-		d1 := decodeShape(s.Enc, in, newPtr())
+		d1 := decodeShape(s.Enc, in, newPtr(), newPtr)
 		r["unchanged"] = string(in) == string(orig)
 		d2 := decodeShape(s.Enc, in, newPtr())
 		r["first"], r["second"] = d1, d2
